@@ -656,6 +656,12 @@ def run_case(case) -> CaseResult:
                     res.violate(f'{k}: a later chain of the same process loaded {short(got3, 300)} after a consumer had modified ITS loaded copy in place; run returned '
                                 f'{short(v, 300)}', witness=wit)
         if case.get('name_mode') and not res.violations:
+            # readable links asked under the sibling's name (refused or not: a link never takes the place of a stored result)
+            try:
+                chain2.create_readable_filenames(name=sib_name)
+            except Exception:
+                res.count('readable_names_refused_over_existing_results')
+            before = tree_hash(data_dir)
             # ... and the sibling's results are still its own
             sibc = mkchain(sib_name)
             for i in sib_ok:
